@@ -65,6 +65,15 @@ CLAIMED = {
     "C08": ("GUARD rule over the natural loops of SimbodyMatterSubsystemRep that walk the constraint set (isConstraintDisabled on the loop variable before any use, or delegation to callees with a verified entry guard)",
             "Static decision of ONE clause of C08 only, 'disabled constraints have no effect on any result' (DESIGN section 3): every constraint loop that computes with a State skips disabled constraints or calls only self-guarding callees; "
             "six loops visit every declared constraint on purpose (tabled with reasons). Constraint satisfaction, the multiplier solve, Newton's law and constraint power are numerical and NOT decided."),
+    "C09": ("ACCURACY (success only through a fresh `norm <= required accuracy` test; weighted-norm REACHDEF), QUATS (normalisation must-pass after q changes), PRESCRIBED (update provenance through unpackFree into a zeroed vector, free / prescribed+zero list discipline, Free-only normalisation), DISPATCH (accuracy -> options, prescribe/realize/project order, pass-through)",
+            "Static decision of the structural clauses of C09 (DESIGN section 3): projectQ / projectU report success only on paths where, after the last change of the state, the error norm was recomputed and tested against opts.getRequiredAccuracy(), the constraint-error norm being the documented weighted RMS / infinity norm; "
+            "quaternions are normalised after every change of q before success; prescribed coordinates are not touched (updates come from the free-variable solution through unpackFreeQ/U, which address only the free index list; quaternion normalisation skips non-Free mobilizers); "
+            "the System-level entry points hand the caller's accuracy down unchanged and run prescribe/realize/project in order. Convergence, the minimum-norm property of the least-squares step and the `already satisfied` entry test are numerical and NOT decided."),
+    "C10": ("PARTITION (switch exhaustiveness + case->list table per level), LOCKMAP (lock level / Motion -> method table, precedence), FILL (pool, offset, locked array and Motion routine per level), APPLY (pool->state family agreement, coverage of both lists), LOCK (writers through the Instance-stage variable), FORWARD (Custom motion forwarders)",
+            "Static decision of the bookkeeping clauses of C10 (DESIGN section 3): the chain of tables that makes a prescribed or locked coordinate take its prescribed value -- lock()/lockAt()/unlock()/Motion::disable() write the Instance-stage variable; "
+            "realizeInstance maps lock level / Motion to (qMethod,uMethod,udotMethod) as documented and partitions every mobilizer's q, u, udot indices into the presX / zeroX / freeX list of the same level with the right pool offset; "
+            "realizeTime/Position/Dynamics fill the pool of their level from the lock values or the Motion routine of that level; prescribeQ/U copy every pool entry to the state entry of the same list and zero the zero lists; Custom motions forward each routine to its namesake. "
+            "Agreement is decided level by level on every path. The values computed by Motion objects, the known/unknown partition inside the O(n) forward dynamics and the motion multipliers are numerical and NOT decided."),
     "C13": ("PAIR+- structural rule on the action/reaction applications of every two-body element (targets, signs, force expression, own station/arm, body numbering) and FRAME monogram adjacency in the force routines",
             "Static decision of the structural clauses of C13 (DESIGN section 3): for the seven elements that apply action and reaction in one function, the two applications form a +/- pair on two different bodies with the same force and each body's own arm; "
             "frame adjacency at every parseable rotation/transform product. Magnitudes, and the balance of elements whose two spatial forces are computed separately (LinearBushing, CompliantContact, cables), are NOT decided. "
@@ -80,8 +89,6 @@ NA = {
  "C04": "adjointness/bias identities are numerical",
  "C05": "needs an independent numerical reference of each documented mobilizer formula",
  "C06": "metamorphic equality of numerical results; the only shape clause is too thin to claim",
- "C09": "projection success/minimality is decided by computed norms vs tolerances",
- "C10": "exact values after prescribe are numerical; the shape parts are decided under C21/C16/C18",
  "C11": "conservation along trajectories is a global numerical consequence",
  "C12": "power/energy gradient consistency is numerical (symbolic differentiation excluded)",
  "C14": "per-body Newton-Euler balance is numerical",
@@ -104,7 +111,7 @@ NA = {
  "C45": "lengths, rates and power are numerical; frame lint alone is too little of the property",
  "C47": "on-surface residuals and agreement between integrators are numerical",
 }
-PLANNED = ["C07","C08","C13","C16","C17","C19","C21","C22","C23","C24","C26","C31","C32","C33","C35","C38","C46"]
+PLANNED = ["C07","C09","C10","C08","C13","C16","C17","C19","C21","C22","C23","C24","C26","C31","C32","C33","C35","C38","C46"]
 
 def main():
     checks = []
